@@ -31,6 +31,9 @@ type HarnessSpec struct {
 	Stubs     map[string]string `json:"stubs"` // target function -> harness function (pkg-relative "pkg.Func")
 	Note      string            `json:"note"`
 	Witnesses int               `json:"witnesses"` // >0: replay up to this many complete paths natively (all of them in order)
+	// EngineOnly: assertions over something only the engine's environment model observes (e.g. the writers
+	// handed to a process); the native side of the harness never evaluates them
+	EngineOnly []string `json:"engine_only"`
 }
 
 type Spec struct {
@@ -436,6 +439,11 @@ func cmdCheck(args []string) int {
 						// the counterexample cannot be realised against the real environment (e.g. an instant equal
 						// to the real clock): it stands on the solver's verdict
 						p.viol.nativeState = "not-realisable-natively"
+					} else if p.viol.Kind != "panic" && !r.Panicked && r.Diverged == "" && !containsStr(r.Evaluated, p.viol.Label) && engineOnlyLabel(&spec, p.viol.Harness, p.viol.Label) {
+						// the native side of the harness never evaluates this assertion (it is over something only the
+						// engine's environment model can observe, e.g. the writers handed to a process): the violation
+						// stands on the solver's verdict
+						p.viol.nativeState = "not-observable-natively"
 					} else {
 						p.viol.nativeState = "mismatch"
 						p.viol.nativeInfo = fmt.Sprintf("native: failed=%v panicked=%v(%s) diverged=%q", r.Failed, r.Panicked, r.PanicVal, r.Diverged)
@@ -565,6 +573,7 @@ type nativeResult struct {
 	File     string   `json:"file"`
 	Harness  string   `json:"harness"`
 	Failed   []string `json:"failed"`
+	Evaluated []string `json:"evaluated"`
 	Reached  []string `json:"reached"`
 	Notes    []string `json:"notes"`
 	Panicked bool     `json:"panicked"`
@@ -797,4 +806,22 @@ func (ev *evidenceBuilder) write(reports []*harnessReport, viols []*Violation, v
 	os.MkdirAll(filepath.Join(ev.vd, "evidence"), 0o755)
 	b, _ := json.MarshalIndent(doc, "", " ")
 	os.WriteFile(filepath.Join(ev.vd, "evidence", ev.id+".json"), b, 0o644)
+}
+
+func containsStr(a []string, x string) bool {
+	for _, y := range a {
+		if y == x {
+			return true
+		}
+	}
+	return false
+}
+
+func engineOnlyLabel(spec *Spec, harness, label string) bool {
+	for _, h := range spec.Harnesses {
+		if h.Entry == harness && containsStr(h.EngineOnly, label) {
+			return true
+		}
+	}
+	return false
 }
